@@ -224,6 +224,8 @@ def population_update(rep, prog):
                 rep.ok("C09.population-update", prog, fn, ins[0], "daughters collected in '%s' are appended to the list after the parallel loop" % d.split("#")[0])
             else:
                 rep.violation("C09.population-update", prog, fn, None, "collected daughters never appended", "daughters are pushed into '%s' but that container is never appended to the population after the loop" % d.split("#")[0])
+    from .c10 import run_remove_index
+    run_remove_index(rep, prog, rule="C09.population-update", only={"cell_divider::run"})
     S = e1.Summaries(prog)
     regs, sr = shared_resize(S, prog, fn)
     if sr:
